@@ -663,10 +663,19 @@ func DShape(a any) bool {
 //@   ensures e != nil
 //@   ensures err == nil ==> DValueLeaf(e)
 
+//@ func (Expression).MarshalJSON
+//@   props C12 C13
+//@   assert operator-name-encoded before "return json.Marshal(c)": c.Operator == NameOf(e.Op)
+//@   assert fuzzy-distance-encoded-unless-default before "return json.Marshal(c)": (c.FuzzyDistance == nil) == (e.fuzzyDistance == 1) && (c.FuzzyDistance != nil ==> *c.FuzzyDistance == e.fuzzyDistance)
+//@   assert boost-power-encoded-unless-default before "return json.Marshal(c)": (c.BoostPower == nil) == (e.boostPower == 1.0) && (c.BoostPower != nil ==> verifspec.SameFloat(*c.BoostPower, e.boostPower))
+
 //@ func (*Expression).UnmarshalJSON
 //@   props C13 C12
 //@   fuel 2 DShape=2
 //@   ensures[decoded-shape] err == nil ==> DShape(e)
+//@   assert operator-as-named before "return nil": e.Op == OpNamed(c.Operator)
+//@   assert fuzzy-distance-as-encoded before "return nil": e.Op == Fuzzy ==> (c.FuzzyDistance != nil ==> e.fuzzyDistance == *c.FuzzyDistance) && (c.FuzzyDistance == nil ==> e.fuzzyDistance == 1)
+//@   assert boost-power-as-encoded before "return nil": e.Op == Boost ==> (c.BoostPower != nil ==> verifspec.SameFloat(e.boostPower, *c.BoostPower)) && (c.BoostPower == nil ==> verifspec.SameFloat(e.boostPower, 1.0))
 //@   loop 0: rangeinv len(exprs) == idx && verifspec.Forall(0, idx, func(i int) bool { return DValueLeaf(exprs[i]) })
 
 // LemmaDecodedWF: decoded trees contain no typed-nil pointer.
